@@ -3,7 +3,7 @@
 import os, sys, json
 sys.path[:0] = ['/verif', '/repo/src']
 from vf.replay import replay
-ARGS = json.loads('{"k2": 0, "k3": 3}')
-r = replay('harness.c02', "menu3[S1,'-fo']", ARGS, 'quick')
+ARGS = json.loads('{"a2": 1, "b1": 3, "b2": 0, "la": false, "lb": false}')
+r = replay('harness.c05', "two_parses[S1>S1B,'x']", ARGS, 'quick')
 print('REPRODUCED: ' + r if r else 'NOT-REPRODUCED')
 sys.exit(1 if r else 0)
